@@ -46,10 +46,11 @@ structure Inv (s : State) : Prop where
   joinMid_ended : ∀ c, s.rpc = .joinMid c → s.pc = .ended
   inPub_settings : s.pc = .inPub → s.settings.isSome = true
   pub_def    : s.adopted = s.published ++ (if s.pc = .inPub then s.settings.toList else [])
-  settings_runs : s.settings.isSome = true → s.runs = 1
 
-theorem inv_init : Inv init := by
-  constructor <;> simp [init, Pc.ranOut?]
+theorem inv_initS (v0 : Option Nat) : Inv (initS v0) := by
+  constructor <;> simp [initS, init, Pc.ranOut?]
+
+theorem inv_init : Inv init := inv_initS none
 
 /-- unfold one action, split its guards, discharge every field of `Inv` for the successor state -/
 syntax "inv_tac " ident : tactic
@@ -271,16 +272,16 @@ theorem inv_exec {tr : List Act} {s s' : State} (h : Inv s) (he : exec s tr = so
     exact ih (inv_step h h1) h2
 
 theorem inv_reachable {s : State} (h : Reachable s) : Inv s := by
-  obtain ⟨tr, he⟩ := h
-  exact inv_exec inv_init he
+  obtain ⟨v0, tr, he⟩ := h
+  exact inv_exec (inv_initS v0) he
 
 theorem reachable_step {s s' : State} {a : Act} (h : Reachable s) (hs : step s a = some s') : Reachable s' := by
-  obtain ⟨tr, he⟩ := h
-  exact ⟨tr ++ [a], exec_append.2 ⟨s, he, by simp [exec, hs]⟩⟩
+  obtain ⟨v0, tr, he⟩ := h
+  exact ⟨v0, tr ++ [a], exec_append.2 ⟨s, he, by simp [exec, hs]⟩⟩
 
 theorem reachable_exec {s s' : State} {tr : List Act} (h : Reachable s) (he : exec s tr = some s') : Reachable s' := by
-  obtain ⟨t0, h0⟩ := h
-  exact ⟨t0 ++ tr, exec_append.2 ⟨s, h0, he⟩⟩
+  obtain ⟨v0, t0, h0⟩ := h
+  exact ⟨v0, t0 ++ tr, exec_append.2 ⟨s, h0, he⟩⟩
 
 /-! ### frame lemmas: what one action does to a ghost field -/
 
